@@ -336,8 +336,10 @@ static void tamper(World &W, const Op &op)
 		if (iv_region && op.kind == "f_flip") l.iv_flip = true;
 		else if (iv_region) { l.iv_insdel = true; l.iv_delta += (op.kind == "f_ins") ? 1 : -1; }
 		else l.body_other = true;
-		l.tamper_iv = l.iv_flip || (l.iv_insdel && l.iv_delta == 0);
-		l.tamper_body = l.body_other || l.iv_delta != 0;
+		// (a net length change of the IV moves the boundary between IV and first frame by some octets: the first
+		// value is lost as well, later frames are found again at their line ends - still damage of the IV only)
+		l.tamper_iv = l.iv_flip || l.iv_insdel;
+		l.tamper_body = l.body_other;
 		W.res.cnt["fault." + op.kind.substr(2) + (iv_region ? "_iv" : ((off - 0) < f.bytes.size() - W.maclen ? "_line" : "_tag"))]++;
 	}
 	else
@@ -382,6 +384,8 @@ static Plan aio_generate(uint64_t seed, const Tier &tier)
 	if (tier.opt.count("nofaults")) fault_mode = 0;
 	p.cfg["fault_mode"] = fault_mode;
 	int nops = (int)g.range(4, tier.thorough ? 90 : 60);
+	// rarely a long exchange on one link first: counters of more than one octet (sequence numbers, chunk counters)
+	if (g.chance(1, tier.thorough ? 12 : 25)) p.ops.push_back(Op("burst", (int64_t)g.below(n), (int64_t)g.below(n), (int64_t)g.range(257, 330)));
 	for (int i = 0; i < nops; i++)
 	{
 		unsigned c = (unsigned)g.below(100);
@@ -479,6 +483,19 @@ static RunResult aio_execute(const Plan &plan)
 			if (op.a.size() > 3) any_fault = true;
 			if (!manual) release(W, W.L[s][d], 0);
 			// equal integers must not give equal frames (encrypted mode)
+		}
+		else if (op.kind == "burst")
+		{
+			// many values on one link, handed over and received as they go
+			size_t s = (size_t)op.arg(0) % W.n, d = (size_t)op.arg(1) % W.n; size_t cnt = (size_t)std::max<int64_t>(1, std::min<int64_t>(400, op.arg(2)));
+			Op plain("send", (int64_t)s, (int64_t)d, 0);
+			for (size_t q = 0; q < cnt && W.res.ok(); q++)
+			{
+				do_send(W, s, d, (int)(q % 8), plain);
+				release(W, W.L[s][d], 0);
+				if (q % 3 == 2 || q + 1 == cnt) for (int r = 0; r < 4 && W.res.ok(); r++) do_recv(W, d, 2, s, NULL);
+			}
+			W.res.cnt["probe.bursts"]++;
 		}
 		else if (op.kind == "recv")
 		{
